@@ -10,6 +10,7 @@ package vrt
 
 import (
 	"fmt"
+	"reflect"
 	"runtime"
 	"runtime/debug"
 	"sort"
@@ -886,4 +887,25 @@ func NowNs() int64 {
 		return 0
 	}
 	return cur.now
+}
+
+// SortedKeys returns the keys of m in a canonical order (used by the rewritten range-over-map
+// statements: Go's random iteration order would otherwise be nondeterminism the explorer does not own).
+func SortedKeys[M ~map[K]V, K comparable, V any](m M) []K {
+	keys := make([]K, 0, len(m))
+	for k := range m {
+		keys = append(keys, k)
+	}
+	sort.Slice(keys, func(i, j int) bool { return fmt.Sprint(keys[i]) < fmt.Sprint(keys[j]) })
+	return keys
+}
+
+// RangeCheck guards range statements the instrumenter did not recognise as map iterations.
+func RangeCheck[T any](x T) T {
+	if cur != nil {
+		if reflect.ValueOf(x).Kind() == reflect.Map {
+			panic("vrt: range over a map that the instrumenter did not rewrite (iteration order not owned)")
+		}
+	}
+	return x
 }
